@@ -471,6 +471,8 @@ class TrackWorld(World):
             return ["b", "/", L, ["l", r.choice([2, 0.5, 10, 4])]]           # division by a non-zero number
         if u < 0.24 and kr == 0:
             return ["b", r.choice([">>", "<<"]), L, ["l", r.choice([1, 2, 3])]]   # circular delay / advance
+        if u < 0.32 and kr == 0:
+            return ["b", "^", L, ["l", r.choice([2, 3])]]                    # power (also written **)
         if r.random() < 0.3:
             def atom():
                 return ["l", r.choice([2, 3, 0.5, 10, 7])] if r.random() < 0.7 else ["v", r.choice(["k1", "k2"])]
@@ -478,6 +480,8 @@ class TrackWorld(World):
             if r.random() < 0.3:
                 # a constant sub-expression (number op number): folded by the evaluator, no temporary
                 lit = ["b", r.choice("+-*/"), atom(), atom()]
+                if r.random() < 0.2:
+                    lit = ["b", "^", ["l", r.choice([2, 3, 0.5, 10, 7])], ["l", r.choice([2, 3])]]
             if kl == 0 and r.random() < 0.5:
                 L = lit
             elif kr == 0:
@@ -497,6 +501,7 @@ class TrackWorld(World):
             st["tree"] = self._gen_tree(r, m, r.choice([2, 3, 3, 4, 5, 7, 12, 14]))
             st["ext"] = {"k1": r.choice([2.0, 7.0, 0.5]), "k2": r.choice([0.25, 3.0, -1.5])}
             st["bare"] = r.random() < 0.5
+            st["pow_alias"] = r.random() < 0.3
             if r.random() < 0.25:
                 st["reflex"] = r.choice("+-*")          # out += tree, out -= tree, out *= tree
                 st["out"] = self._pick_name(r, m, True)
@@ -1495,7 +1500,8 @@ class TrackWorld(World):
         left = self._tree_text(t[2], bare, t[1])
         if t[1] in (">>", "<<") and t[2][0] in ("f", "g"):
             left = "(" + left + ")"      # the shift operators bind tighter than a function application
-        txt = "%s%s%s" % (left, t[1], self._tree_text(t[3], bare, t[1]))
+        sym = "**" if (t[1] == "^" and getattr(self, "_pow_alias", False)) else t[1]
+        txt = "%s%s%s" % (left, sym, self._tree_text(t[3], bare, t[1]))
         if parent is None or (bare and t[1] == "*" and parent in "+-"):
             return txt
         return "(" + txt + ")"
@@ -1541,6 +1547,8 @@ class TrackWorld(World):
                 return A / B
             if op in (">>", "<<"):
                 raise Skip()
+            if op == "^":
+                return A ** B
             return A + B if op == "+" else A - B if op == "-" else A * B
         if isinstance(A, float):
             A = [A] * n
@@ -1549,6 +1557,10 @@ class TrackWorld(World):
         if op == "/":
             inv = 1.0 / B[0]                 # documented definition: x * (1 / number)
             return [u * inv for u in A]
+        if op == "^":
+            if B[0] not in (2.0, 3.0):
+                raise Skip()                # (shrunk candidates only)
+            return [float(u) ** B[0] for u in A]
         if op in (">>", "<<"):
             k2 = int(B[0]) if op == ">>" else -int(B[0])
             return [A[(i - k2) % n] for i in range(n)]
@@ -1567,6 +1579,7 @@ class TrackWorld(World):
             self._napp = 0
             self._ext = {}
             self._ext_vals = st.get("ext") or {"k1": 2.0, "k2": 0.25}
+            self._pow_alias = bool(st.get("pow_alias"))
             val = self._tree_eval(st["tree"], m)
             if isinstance(val, float):
                 raise Skip()
